@@ -257,7 +257,11 @@ def enumerate_op(case, ctx, opname, build, run, mode, stride, offset, sample=Non
         if cold:
             # only the boundaries inside the functions that fill the module-level memo tables
             ks = [k for k in range(1, total + 1) if sites[k - 1][0] in MEMO_FUNCTIONS]
-            sample = 25 if ctx.tier == "quick" else None
+            sample = None
+            if ctx.tier == "quick" and len(ks) > 14:
+                # an injected run with cold tables recomputes the least-squares matrices (seconds)
+                ctx.rng.shuffle(ks)
+                ks = sorted(ks[:14])
         if sample == "auto":
             # thorough: every boundary of operations with up to ~8000 boundaries; beyond that, per
             # stride, the first occurrence of every site plus 400 sampled boundaries
@@ -412,7 +416,8 @@ def plan(tier):
                 out.append(("line", name, off))
         for i in range(48):
             out.append(("random", i, 0))
-    for name in ("moment of connected", "polygon & polygon (crossing)") + (("circle & square (crossing, curved)", "copy of disjoint") if tier != "quick" else ()):
+    for name in (("polygon & polygon (crossing)",) if tier == "quick" else
+                 ("moment of connected", "polygon & polygon (crossing)", "circle & square (crossing, curved)", "copy of disjoint")):
         out.append(("cold", name, 0))
     for i in range(4 if tier == "quick" else 24):
         out.append(("hostile", i, 0))
